@@ -782,7 +782,9 @@ func (i *IRCServer) TrustedBridge(authHeader string) string {
 func (i *IRCServer) captchaConfigured() bool {
 	i.ConfigMu.RLock()
 	defer i.ConfigMu.RUnlock()
-	return i.Config.CaptchaURL != "" && i.Config.CaptchaHMACSecret != nil
+	// An empty secret (CaptchaHMACSecret = "") is no secret: it would sign
+	// nothing, and snapshots cannot tell it apart from an unset one.
+	return i.Config.CaptchaURL != "" && len(i.Config.CaptchaHMACSecret) > 0
 }
 
 func (i *IRCServer) captchaRequiredForLogin() bool {
